@@ -93,7 +93,10 @@ ALGO_READ = {'std::any_of', 'std::find_if', 'std::find', 'std::find_if_not', 'st
              'std::count', 'std::count_if', 'std::for_each', 'std::next', 'std::prev', 'std::advance', 'std::begin', 'std::end',
              'std::lower_bound', 'std::upper_bound', 'std::binary_search', 'std::equal', 'std::accumulate', 'std::move',
              'std::forward', 'std::make_pair', 'std::addressof'}
-ALGO_COMPACT = {'std::stable_partition': 'keep', 'std::remove_if': 'drop', 'std::remove': 'value'}
+ALGO_COMPACT = {'std::stable_partition': 'keep', 'std::remove_if': 'drop', 'std::remove': 'value',
+                # hand-written shift-down loop (x_symnf._loop_compact) started at the position K a search returned: the element at K is
+                # dropped, behind it the elements satisfying the predicate are kept in order; arguments (K, last, predicate)
+                'loop::shift_down': 'keep'}
 ALGO_REORDER = {'std::partition', 'std::sort', 'std::stable_sort', 'std::reverse', 'std::rotate', 'std::swap', 'std::iter_swap',
                 'std::swap_ranges', 'std::random_shuffle', 'std::shuffle', 'std::nth_element', 'std::partial_sort',
                 'std::make_heap', 'std::push_heap', 'std::pop_heap', 'std::sort_heap', 'std::next_permutation',
@@ -114,7 +117,7 @@ def follow_c10(f):
 
 
 def mk_se(tu):
-    return SymExec(tu, own=lambda f: f['q'].startswith('rkcommon::'), inline_stmt=follow_c10, recognise_search=True)
+    return SymExec(tu, own=lambda f: f['q'].startswith('rkcommon::'), inline_stmt=follow_c10, recognise_search=True, recognise_loops=True)
 
 
 def paths_of(se, f, args=None):
@@ -257,7 +260,7 @@ class Seq:
             elif ev.kind == 'call' and last(ev.how or '') == 'operator=' and isinstance(ev.place, tuple) and ev.place[:1] == ('field',) \
                     and len(ev.place) == 3 and self.is_elem(ev.place[1]):
                 out.append(('store', 'operator=', ev))      # assignment to a class-type member (key / value) of an element
-            elif ev.kind == 'call' and ev.node.get('kind') == 'CallExpr' and not fn_const:
+            elif ev.kind == 'call' and (ev.node.get('kind') == 'CallExpr' or getattr(ev, 'idiom', False)) and not fn_const:
                 vals = [unver(v) for v in (ev.value or ())]
                 if any(contains(v, S) for v in vals):
                     out.append(('algo', ev.how, ev))
@@ -545,7 +548,9 @@ def check_sequence_rules(ctx, tu, se, seq, fns, file_of, tag, counts):
                     if name in ALGO_COMPACT:
                         compacts.append([unver(ev.nf), False, ev, name])
                         vals = [unver(v) for v in ev.value]
-                        if vals[0] != vbegin(S) or vals[1] != vend(S):
+                        if name == 'loop::shift_down' and seq.match_lookup(vals[0]) is not None and vals[1] == vend(S):
+                            pass       # from the position a search over the whole sequence returned up to the end
+                        elif vals[0] != vbegin(S) or vals[1] != vend(S):
                             ctx.undecided(R2, inst, '`%s` does not run over the whole sequence' % what, l)
                             viol = True
                     elif name in ALGO_REORDER:
@@ -559,8 +564,18 @@ def check_sequence_rules(ctx, tu, se, seq, fns, file_of, tag, counts):
                     lhs = ev.nf if ev.kind == 'store' else ev.place
                     if seq.is_elem(lhs):
                         nmut += 1
-                        ctx.violation(R2, inst, '`%s` overwrites a whole element (swap-with-last style removal): the order of the remaining elements changes'
-                                      % what, l, key='%s|%s|%s|element-overwritten' % (R2, file, pname))
+                        # recognised wrong: the element is overwritten with the last one (swap-with-last removal); any other element store
+                        # (e.g. a shift-down inside a loop that was not recognised as a whole) is not decided here
+                        v_ = ev.value[0] if (ev.kind != 'store' and ev.value) else ev.value
+                        v_ = unver(v_) if isinstance(v_, tuple) else None
+                        back_ = (('call', 'std::vector::back', S), ('deref', mk_comm('add', [vend(S), ('const', -1)])),
+                                 ('elem', S, mk_comm('add', [('call', 'std::vector::size', S), ('const', -1)])))
+                        if v_ in back_:
+                            ctx.violation(R2, inst, '`%s` overwrites a whole element with the last one (swap-with-last style removal): the order of the '
+                                          'remaining elements changes' % what, l, key='%s|%s|%s|element-overwritten' % (R2, file, pname))
+                        else:
+                            ctx.undecided(R2, inst, '`%s` overwrites a whole element with `%s`; whether the order of the remaining elements is kept is not '
+                                          'decided (not a recognised compaction)' % (what, show(v_) if v_ is not None else '?'), l)
                         viol = True
                     elif isinstance(lhs, tuple) and lhs[0] == 'field' and seq.is_elem(lhs[1]) and lhs[2] == 'first':
                         nmut += 1
@@ -569,7 +584,9 @@ def check_sequence_rules(ctx, tu, se, seq, fns, file_of, tag, counts):
             for c in compacts:
                 if not c[1]:
                     ctx.violation(R2, inst, '`%s` is not followed by a truncation at the iterator it returns: the removed elements stay in the sequence'
-                                  % tu.show(c[2].node), tu.loc(c[2].node), key='%s|%s|%s|compact-without-truncate' % (R2, file, pname))
+                                  % (tu.show(c[2].node) if not getattr(c[2], 'idiom', False) else
+                                     'the hand-written shift-down loop (it acts as %s and leaves its end of the kept range in the write cursor)' % c[3]),
+                                  tu.loc(c[2].node), key='%s|%s|%s|compact-without-truncate' % (R2, file, pname))
                     viol = True
         counts['fn'] += 1
         if not viol:
@@ -861,6 +878,12 @@ def check_flatmap(ctx, tu, tag=''):
                         if mode == 'value' or not (isinstance(pr, tuple) and pr[0] == 'pred'):
                             und.append(('erase-predicate', 'predicate of `%s` not recognised' % tu.show(ev.node)))
                             continue
+                        if aname == 'loop::shift_down':
+                            m_ = seq.match_lookup(vals[0])
+                            if m_ is None:
+                                und.append(('erase-shape', 'the compaction loop does not start at the result of a lookup of the key'))
+                                continue
+                            want_lookup(vals[0], m_[1], m_[0])      # the element dropped unconditionally is the one the lookup found
                         body = pr[1]
                         neg = False
                         if body[0] == 'not':
@@ -879,7 +902,8 @@ def check_flatmap(ctx, tu, tag=''):
                         # remove_if drops elements for which the predicate holds: drop = (first == key)
                         elif (mode == 'keep') != neg:
                             probs.append(('erase-predicate-polarity', '`%s` with predicate `%s` removes the elements whose key is *different* from the argument'
-                                          % (last(aname), show(pr))))
+                                          % (last(aname) if aname != 'loop::shift_down' else 'the shift-down loop, which keeps the elements satisfying its test,',
+                                             show(pr))))
                         others = [x for x in evs if x is not compacts[0] and not (x[0] == 'member' and x[1] in ('resize', 'erase'))]
                         if others:
                             probs.append(('unexpected-mutation', 'erase also performs `%s`' % tu.show(others[0][2].node)))
@@ -1159,10 +1183,12 @@ def check_paramobj(ctx, tu, tag=''):
                         ('added-wrong-result', 'findParam(name, true) returns `%s` after appending instead of the new last parameter' % (show(rvu) if rvu else p.term[0])))
         return probs, und
 
+    finder_ok = {}
     for flag in (0, 1):
         n5 += 1
         inst = 'ParameterizedObject::findParam(name, %s)%s' % ('true' if flag else 'false', tag)
         probs, und = eval_finder(flag)
+        finder_ok[flag] = not probs and not und
         if probs:
             for kind, why in sorted(set(probs)):
                 ctx.violation(R5, inst, why, floc, key='%s|%s|%s|%s' % (R5, ffile, fpname, kind))
@@ -1434,6 +1460,12 @@ def check_paramobj(ctx, tu, tag=''):
                     vals = [unver(v) for v in ev.value]
                     pr_ = vals[2] if len(vals) > 2 else None
                     body = pr_[1] if isinstance(pr_, tuple) and pr_[0] == 'pred' else None
+                    if aname == 'loop::shift_down':
+                        m_ = seq.match_lookup(vals[0])
+                        if m_ is None:
+                            und.append(('erase-predicate', 'the compaction loop does not start at the result of a lookup of the name'))
+                            continue
+                        report_mismatch(lookup_mismatch(m_[0], m_[1], keyexpr0, p0), probs, und)
                     neg = False
                     if body is not None and body[0] == 'not':
                         body, neg = body[1], True
@@ -1447,6 +1479,48 @@ def check_paramobj(ctx, tu, tag=''):
                         probs.append(('erase-predicate-key', 'removeParam compares `%s` with `%s`' % (show(a), show(b))))
                     elif (ALGO_COMPACT[aname] == 'keep') != neg:
                         probs.append(('erase-predicate-polarity', 'removeParam removes the parameters whose name is different from the argument'))
+                    continue
+                # the by-name search delegated to findParam(name, false): V = the first parameter named `name`, or null.  For a non-null V
+                # the search of the list for the entry whose pointer is V (`p.get() == V`) finds the very entry findParam stopped at
+                # (an earlier entry holding the same object would carry the same name and findParam would have stopped there), so it
+                # cannot fail and needs no end() test
+                V = finder_call(0)
+                nullc = p.cond_of(mk_eq(('null',), V))
+
+                def ident_lookup(x):
+                    m_ = seq.match_lookup(x)
+                    return m_ is not None and m_[1] == V and m_[0] in (('call', 'std::__shared_ptr::get', ('lparam', 0)), ('addr', ('deref', ('lparam', 0))))
+                if nullc is not None and (lc is None or ident_lookup(lc[1])):
+                    if not finder_ok.get(0):
+                        und.append(('finder', 'removeParam relies on findParam(name, false), which is not decided to return the first parameter of that name or null'))
+                        continue
+                    if nullc is True:
+                        if evs:
+                            probs.append(('erase-when-missing', 'removeParam modifies the list (`%s`) although findParam did not find the name'
+                                          % tu.show(evs[0][2].node)))
+                        continue
+                    if lc is not None and lc[0]:
+                        if evs:      # the identity search of a parameter findParam just returned cannot fail
+                            und.append(('shape', 'removeParam changes the list on the (impossible) path where the found parameter is not in the list'))
+                        continue
+                    erases = [x for x in evs if x[0] == 'member' and x[1] == 'erase']
+                    if not erases:
+                        did = ', '.join('`%s`' % tu.show(x[2].node) for x in evs) or 'nothing'
+                        probs.append(('not-erased', 'removeParam leaves the found entry in the list (it does %s): the name stays stored - with its position '
+                                      'and its query flag - so a later setParam of that name gets the old entry back (already "queried", at the old '
+                                      'place in the iteration order) instead of a fresh parameter appended at the end' % did))
+                    elif len(evs) != 1:
+                        und.append(('not-erased', 'removeParam erases and also does %s' % ', '.join('`%s`' % tu.show(x[2].node) for x in evs if x[1] != 'erase')))
+                    else:
+                        ea = [unver(a) for a in erases[0][2].value]
+                        if len(ea) == 1 and ident_lookup(ea[0]):
+                            pass
+                        elif any(has_unknown(a) for a in ea) or (len(ea) == 1 and isinstance(ea[0], tuple) and ea[0][:2] == ('call', 'std::find_if')):
+                            und.append(('erase-not-found-iterator', 'removeParam erases `%s`, which is not recognised as the entry findParam returned'
+                                        % ', '.join(show(a) for a in ea)))
+                        else:
+                            probs.append(('erase-not-found-iterator', 'removeParam erases `%s` instead of the entry that holds the parameter findParam returned'
+                                          % ', '.join(show(a) for a in ea)))
                     continue
                 if lc is None:
                     if evs:
@@ -1860,6 +1934,48 @@ def check_key_alias(ctx, tu, tag=''):
                 o = tu.strip(obj, casts=True) if obj is not None else None
                 return o is not None and o.get('kind') == 'MemberExpr' and tu.sd(o).get('d') == sid
 
+            # local iterators / pointers / references into the sequence (initialised from it, or from another such local)
+            into = set()
+            body_ = tu.body(f)
+            decls_ = [y for y in tu.walk(body_) if y.get('kind') == 'VarDecl'] if body_ is not None else []
+            grew = True
+            while grew:
+                grew = False
+                for vd in decls_:
+                    if vd['id'] in into:
+                        continue
+                    for y in tu.walk(vd):
+                        if (y.get('kind') == 'MemberExpr' and tu.sd(y).get('d') == sid) or \
+                                (y.get('kind') == 'DeclRefExpr' and y.get('referencedDecl', {}).get('id') in into):
+                            into.add(vd['id'])
+                            grew = True
+                            break
+
+            def elem_store(x):
+                """assignment to a whole stored element or to its key through an iterator / index into the sequence: the old key there
+                is overwritten (moved over), exactly what vector::erase does to the successors of the erased position"""
+                k_ = x.get('kind')
+                if k_ == 'BinaryOperator' and x.get('opcode') == '=':
+                    lhs = tu.kids(x)[0]
+                elif k_ == 'CXXOperatorCallExpr' and last(strip_targs(tu.sd(x).get('q', ''))) == 'operator=' and len(tu.kids(x)) == 3:
+                    lhs = tu.kids(x)[1]
+                else:
+                    return False
+                lhs = tu.strip(lhs, casts=True)
+                if lhs is not None and lhs.get('kind') == 'MemberExpr':
+                    if lhs.get('name') != 'first':
+                        return False
+                    lhs = tu.strip(tu.kids(lhs)[0], casts=True) if tu.kids(lhs) else None
+                if lhs is None:
+                    return False
+                deref = (lhs.get('kind') == 'UnaryOperator' and lhs.get('opcode') == '*') or lhs.get('kind') == 'ArraySubscriptExpr' or \
+                    (lhs.get('kind') == 'CXXOperatorCallExpr' and last(strip_targs(tu.sd(lhs).get('q', ''))) in ('operator*', 'operator[]', 'operator->')) or \
+                    (lhs.get('kind') == 'CXXMemberCallExpr' and last(strip_targs(tu.sd(lhs).get('q', ''))) in ('back', 'front', 'at'))
+                if not deref:
+                    return False
+                return any((y.get('kind') == 'MemberExpr' and tu.sd(y).get('d') == sid) or
+                           (y.get('kind') == 'DeclRefExpr' and y.get('referencedDecl', {}).get('id') in into) for y in tu.walk(lhs))
+
             def transfer(blk, i, el, st):
                 if el[0] != 'S':
                     return [st]
@@ -1867,6 +1983,8 @@ def check_key_alias(ctx, tu, tag=''):
                 if x is None:
                     return [st]
                 k = x.get('kind')
+                if k in ('BinaryOperator', 'CXXOperatorCallExpr') and elem_store(x):
+                    return [x['id']]
                 if k in ('CXXMemberCallExpr', 'CXXOperatorCallExpr') and on_seq(x):
                     sd = tu.sd(x)
                     if last(strip_targs(sd.get('q', ''))) in moving and not re.search(r'\)\s*const\b', sd.get('fty', '')):
